@@ -130,7 +130,34 @@ def run(facts, cg, reviewed=None):
                     if isinstance(a_, tuple) and a_[0] == 'call' and a_[1].split('::')[-1] in ('max', 'saturating_add', 'wrapping_add') :
                         return any(isinstance(x, tuple) and x[0] == 'const' and isinstance(x[1], int) and x[1] >= 1 for x in a_[2])
                     return False
-                ok = bool(alts) and all(positive(a_) for a_ in alts)
+                def counter_from_one(g_, a_):
+                    """a local that starts at a constant >= 1 and is only ever added to (`let mut n = 1; .. n += 1`)"""
+                    if not (isinstance(a_, tuple) and a_[0] == 'var'):
+                        return False
+                    gb = facts.bodies.get(a_[1]) or next((x for x in facts.bodies.values() if x.id == a_[1]), None)
+                    if gb is None:
+                        return False
+                    for l_, lc in enumerate(gb.locals):
+                        if lc.get('name') == a_[-1] and len(gb.defs().get(l_, [])) > 1:
+                            inits, incs, other = 0, 0, 0
+                            for d2 in gb.defs()[l_]:
+                                if d2[0] != 'assign':
+                                    other += 1
+                                    continue
+                                tt = simplify(T.of_rvalue(gb, d2[1]['rv'], 0))
+                                while isinstance(tt, tuple) and tt[0] == 'field' and tt[2] in ('0', 0):
+                                    tt = tt[1]
+                                if isinstance(tt, tuple) and tt[0] == 'const' and isinstance(tt[1], int) and tt[1] >= 1:
+                                    inits += 1
+                                elif isinstance(tt, tuple) and tt[0] == 'binop' and tt[1] in ('Add', 'AddWithOverflow') and \
+                                        any(isinstance(x, tuple) and x[0] == 'const' and isinstance(x[1], int) and x[1] >= 0 for x in (tt[2], tt[3])):
+                                    incs += 1
+                                else:
+                                    other += 1
+                            if inits >= 1 and other == 0:
+                                return True
+                    return False
+                ok = bool(alts) and all(positive(a_) or counter_from_one(b, a_) for a_ in alts)
                 instances.append({'rule': 'R-UNTRUSTED(precondition)', 'what': 'a run of adjacent chunks has at least one chunk', 'function': b.q, 'at': st['loc'], 'holds': ok})
                 if not ok:
                     findings.append({'rule': 'R-UNTRUSTED', 'key': 'R-UNTRUSTED|%s|precondition:run-length-positive' % b.q, 'function': b.q,
